@@ -214,7 +214,8 @@ PROPS = {
         "rule": "as C01 with fault placements on a third of the cloud calls (error before effect, error after effect, partial result, quota and exhaustion codes) combined with cancellations and remote removals; "
                 "at every quiescent point the snapshot is judged against the ledger: nothing the cloud assigned is untracked; with no call in flight what is tracked as valid is what the cloud has; no owner without holder; "
                 "no create/assign call before the back-off deadline implied by earlier answers. A second harness drives the real Manager.Allocate with 1..4 resource requests per ADD (half of them the ERDMA pod's two) "
-                "against stub backends that answer in any order with a resource, an error, a closed channel or not at all, with the caller's cancellation anywhere, each event taken in before the next; "
+                "against stub backends that answer in any order with a resource, an error, a closed channel or not at all, with the caller's cancellation anywhere, each event taken in before the next - "
+                "except two staged coincidences: an answer taken in the very instant the context ends (the backend cancels right after its send went through), and an answer that comes in while the dispatch loop is held by the next request's backend; "
                 "then does what the daemon does on an error (Release of exactly what Allocate returned): clause 771 nothing is left marked as the pod's after a failed ADD, 772 a successful ADD holds what was returned. "
                 "non-trivial = at least one cloud call failed (pool) / an ADD of several requests one of which failed (manager); distinct = distinct input vectors",
         "trusted": ["testing/synctest virtual clock and quiescence detection (go1.26.8)",
@@ -225,7 +226,7 @@ PROPS = {
         "level_text": "Theorems over all label sequences incl. faults: cloud-assigned addresses are always tracked (no orphan); a Deleting entry stays until an unassign/delete is confirmed; after a truthful sync valid entries = cloud's; "
                       "create/assign begin only with the back-off deadline in the past and a needy request is refused meanwhile; owner => holder or in-flight request (per interface). Tied as C01.",
         "level_note": "Trusted as C01. Partial: the watermark band (liveness) is not proved. Manager.Allocate's aggregation over the requests of one ADD is modelled (coq/MgrModel.v) for schedules in which every answer is taken in before the next event "
-                      "(c07_allocate_returns_what_was_handed_out, c07_failed_add_leaves_nothing); an answer that races with a sibling's failure or with the dispatch loop inside one instant (S6) is outside that model.",
+                      "(c07_allocate_returns_what_was_handed_out, c07_failed_add_leaves_nothing), plus two coincidences the harness can stage (answer taken in the instant of the cancellation; answer collected during dispatch); other orders inside one instant are outside that model.",
     },
     "C02": {
         "pkg": "./ipam/", "test": "TestVerif_Ipam", "n_quick": 400, "n_thorough": 12000, "env": {"VERIF_PROP": "C02"},
